@@ -205,6 +205,21 @@ def _corpus():
                      ('action', 'off', 'all'), ('wait',),
                      ('units', a), ('action', 'set', 'all'), ('print', ('reg', 'duration')),
                      ('print', ('reg', 'time'))], pop))
+    # "a routine call runs the routine's body with the given arguments": the arguments are the
+    # caller's values, also when a later argument names a caller variable called like one of
+    # the routine's EARLIER parameters (statement call, bracketed call, a self-call swapping them)
+    v = lambda n: ('var', n)  # noqa
+    out.append(([('assign', 'a', num(1)), ('assign', 'b', num(2)),
+                 ('define', 'show', ['a', 'b'], [('print', v('a')), ('print', v('b'))]),
+                 ('define', 'diff', ['a', 'b'], [('return', ('expr', ('bin', '-', v('a'), v('b'))))]),
+                 ('define', 'flip', ['a', 'b', 'n'],
+                  [('print', v('a')), ('print', v('b')),
+                   ('if', ('expr', ('bin', '>', v('n'), num(0))),
+                    [('call', 'flip', [v('b'), v('a'), ('expr', ('bin', '-', v('n'), num(1)))], False)], None)]),
+                 ('call', 'show', [v('b'), v('a')], False),
+                 ('print', ('call', 'diff', [v('b'), ('expr', ('bin', '+', v('a'), num(0)))])),
+                 ('call', 'flip', [v('a'), v('b'), num(2)], False),
+                 ('print', v('a')), ('print', v('b'))], pop))
     return out
 
 
